@@ -177,6 +177,24 @@ INFO = {
  ('9','C13','m2'): ("ReplaySubject relies on the one-shot teardown after the hand-over: the first subscriber of replay() is unsubscribed while it is still being registered", ['C10']),
  ('9','C14','m1'): ("start coalesces overlapping subscriptions: two threads subscribe the same start(f) value, the second while the first is inside f", []),
  ('9','C14','m2'): ("amb keeps its decided winner across subscriptions (duplicate of C14-m14)", []),
+ ('10','C01','m1'): ("the item gate is replaced by clearing the item slot after the terminal callback returned: an item arrives while the terminal callback is still running (re-entrantly or from a second thread), subscriber directly on a hot source", ['C19']),
+ ('10','C01','m2'): ("first-terminal-wins is decided on the two callback slots instead of the one atomic flag: error and complete signalled by two threads at the same instant", ['C19']),
+ ('10','C06','m1'): ("upstream_abort_observe returns early once the subscriber is gone, which neutralises new_observer's re-check: thread A passes the first check, thread B finalizes, A registers - the upstream stays subscribed", ['C11']),
+ ('10','C06','m2'): ("inner_subscribe no longer skips an already dead observer: the stream ends while it is being assembled and a later input is a not yet connected ref_count()", ['C15', 'C13']),
+ ('10','C07','m1'): ("switch_on_next keeps a read guard on its flag across the downstream call (match scrutinee temporary; duplicate of C07-m15)", []),
+ ('10','C07','m2'): ("ref_count's connect-once flag keeps its write guard across the synchronous connect: cold synchronous source, the first subscriber ends during the connect (take(1)) and its complete callback subscribes again", ['C13']),
+ ('10','C11','m1'): ("take's in-flight count collapsed into a flag: take(n>=2) fed from two threads, two accepted items in delivery at once, the later one finishing first", []),
+ ('10','C11','m2'): ("amb elects its winner with compare_exchange(0, serial) - serial 0 is a valid serial: the last-listed input signals first and another input emits before it completes", ['C03']),
+ ('10','C15','m1'): ("StreamController::finalize made run-once: the stream ends from elsewhere between StreamController::new and set_on_finalize (debounce creates its scheduler inside that window) - the worker is never aborted", []),
+ ('10','C15','m2'): ("inner_subscribe no longer skips a dead observer: an interval shared by ref_count(), one subscriber whose pipeline ended while being assembled, then all real subscribers leave - the count never reaches 0", ['C06']),
+ ('10','C16','m1'): ("timeout cancels the previous watchdog only after the next item has been delivered (duplicate of C16-m11 / C16-m16)", []),
+ ('10','C16','m2'): ("interval's 'drift compensation' accumulates the subscriber's time: three or more ticks and a subscriber that spends a noticeable part of d in next", []),
+ ('10','C17','m1'): ("ReplaySubject checks 'the subscriber ended during the hand-over' before the drain loop instead of after it: a terminal buffered during the replay is delivered without the release that follows", ['C10']),
+ ('10','C17','m2'): ("finalize keeps the on_finalize slot and stop() keeps its queue (duplicate of C17-m1)", []),
+ ('10','C18','m1'): ("the error callback keeps the err write guard across done=true and the waker read (duplicate of C18-m11)", []),
+ ('10','C18','m2'): ("poll moves the error out of the shared state (take) on the ready path: a clone of the future, or a second await by reference, then yields Ok(items so far)", []),
+ ('10','C19','m1'): ("the error path only reads the terminated flag: an error accepted first, then a completion that gets past the operators' other protections", ['C01']),
+ ('10','C19','m2'): ("the terminal gate uses mem::take instead of mem::replace(.., true): every terminal counts as the first", ['C01']),
  ('3','C14','m2'): ("amb's winner cell hoisted out of the per-subscription closure: a second subscription in which a source in a different position signals first", []),
 }
 
